@@ -31,7 +31,7 @@ def site(fi, node=None):
 
 def check(m, run):
     funcs = [fi for fi in m.funcs.values() if fi.mod in PKG]
-    # insert / remove / refine: decided on abstract nets first (OPS2); the symbolic-size rules below corroborate for these three functions
+    # insert / remove / refine: decided on abstract nets first (OPS2); the symbolic-size rules corroborate for these three functions only
     from .. import skel_drivers as _sd
     OPSF = ('operations.insert_knot', 'operations.remove_knot', 'operations.refine_knotvector')
     n0 = len(run.obs)
@@ -39,29 +39,29 @@ def check(m, run):
     _sd.ops2(m, run, 'remove_knot', 'knot_removal', -1)
     _sd.ops2(m, run, 'refine_knotvector', 'knot_refinement', 1)
     sem_ok = all(o.ok for o in run.obs[n0:])
-    with run.corroborating(sem_ok, 'OPS2', only=lambda o: any(o.key.startswith(f) or (f.split('.')[1] + ' ') in o.key or o.key.startswith(f.split('.')[1]) for f in OPSF)):
-        _check_syntactic(m, run, funcs)
-    if sem_ok:
-        # instance floors of the symbolic rules are not enforced for what OPS2 covers; the remaining functions keep theirs through the counts below
-        pass
+    ops_funcs = [fi for fi in funcs if fi.key in OPSF]
+    other = [fi for fi in funcs if fi.key not in OPSF]
+    summ, contracts = layout.flip_summaries(m)
+    with run.corroborating(sem_ok, 'OPS2'):
+        rl.ly1_canonical(m, run, ops_funcs)
+        ra.ly3_positional_sizes(m, run, ops_funcs)
+        for f in ('insert_knot', 'remove_knot', 'refine_knotvector'):
+            ld.ops_blocks(m, run, f, summ)
+    _check_syntactic(m, run, other, summ, contracts)
 
 
-def _check_syntactic(m, run, funcs):
+def _check_syntactic(m, run, funcs, summ, contracts):
     n = rl.ly1_canonical(m, run, funcs)
     for c in ('SurfaceManager', 'VolumeManager'):
         rl.ly1_index_formula(m, run, m.func('control_points.%s.find_index' % c), 'self')
     run.floor('LY1.canonical-stride', 27, 'canonical stride sites of the pinned tree')
     ra.ly3_positional_sizes(m, run, funcs)
     run.floor('LY3.sizes-in-axis-order', 50, 'set_ctrlpts call sites with per-direction sizes')
-    summ, contracts = layout.flip_summaries(m)
     for name, (accepts, ret) in contracts.items():
         ok = accepts == DOC_CONTRACT[name]
         run.ob('LY2.flip-contract', 'compatibility.%s :: derived contract' % name, ok,
                'index arithmetic is consistent for a %s input and returns %s (as documented)' % (accepts, ret) if ok else
                'the body accepts a %s list, the documented contract is %s' % (accepts, DOC_CONTRACT[name]), site(m.func('compatibility.' + name)))
-    total = 0
-    for f in ('insert_knot', 'remove_knot', 'refine_knotvector'):
-        total += ld.ops_blocks(m, run, f, summ)
     ld.construct_rules(m, run, summ)
     ld.extract_rules(m, run, summ)
     grid_view(m, run, summ)
